@@ -34,6 +34,7 @@ var c02Defects = []string{
 type c02Prog struct {
 	Route    string `json:"route"`
 	Slash    bool   `json:"slash,omitempty"`
+	Tail     string `json:"tail,omitempty"`
 	Defect   string `json:"defect"`
 	Mode     string `json:"mode"`
 	Trunc    bool   `json:"trunc,omitempty"` // additionally cut the connection inside the body
@@ -54,14 +55,16 @@ func (c02) Rule() string {
 type c02Entry struct {
 	r     routes.Route
 	slash bool
+	tail  string // further spellings of a bucket path: "//" (an empty segment after the bucket name)
 }
 
 func c02Entries() []c02Entry {
 	var es []c02Entry
 	for _, r := range routes.Table() {
-		es = append(es, c02Entry{r, false})
+		es = append(es, c02Entry{r, false, ""})
 		if r.Shape == "bucket" {
-			es = append(es, c02Entry{r, true})
+			es = append(es, c02Entry{r, true, ""})
+			es = append(es, c02Entry{r, false, "//"})
 		}
 	}
 	return es
@@ -95,7 +98,7 @@ func (c02) Gen(seed uint64, run int, tier string) *core.Case {
 	es := c02Entries()
 	en := es[run%len(es)]
 	d := c02Defects[(run/len(es))%len(c02Defects)]
-	p := c02Prog{Route: en.r.ID, Slash: en.slash, Defect: d, FragMode: r.IntN(4), Trunc: r.IntN(5) == 0}
+	p := c02Prog{Route: en.r.ID, Slash: en.slash, Tail: en.tail, Defect: d, FragMode: r.IntN(4), Trunc: r.IntN(5) == 0}
 	p.Mode = []string{s3c.ModeSigned, s3c.ModeSigned, s3c.ModeUnsigned}[r.IntN(3)]
 	if en.r.Streams {
 		p.Mode = []string{s3c.ModeSigned, s3c.ModeUnsigned, s3c.ModeChunked, s3c.ModeChunkedTrailer, s3c.ModeUnsignedTrailer}[r.IntN(5)]
@@ -172,6 +175,9 @@ func c02Apply(e *env.Env, fx *routes.Fixture, rt *routes.Route, p *c02Prog) (sg 
 	rq := rt.Build(fx)
 	if p.Slash {
 		rq = routes.WithSlash(rq)
+	}
+	if p.Tail != "" {
+		rq = routes.WithTail(rq, p.Tail)
 	}
 	hasBody := len(rq.Body) > 0
 	if !c02DefectApplies(p.Defect, *rt, p.Mode, hasBody) {
@@ -427,6 +433,9 @@ func (c02) Exec(c *core.Case) (out *core.Outcome) {
 	if p.Slash {
 		name += "/slash"
 	}
+	if p.Tail != "" {
+		name += "/tail=" + p.Tail
+	}
 	var viol []string
 	add := func(effect, format string, a ...any) {
 		viol = append(viol, effect)
@@ -465,6 +474,9 @@ func (c02) Exec(c *core.Case) (out *core.Outcome) {
 		rq := rt.Build(fx)
 		if p.Slash {
 			rq = routes.WithSlash(rq)
+		}
+		if p.Tail != "" {
+			rq = routes.WithTail(rq, p.Tail)
 		}
 		rq.Mode = p.Mode
 		if rt.Streams {
